@@ -36,6 +36,22 @@ fn walk_ok(t: &dyn Table, img: &[u8]) -> Result<(), String> {
     let e = t.walk(img)?;
     t.counts(img, &e)
 }
+/// the image a table would have after appending `element` to `prefix` (a serialised table): bytes concatenated, Length and
+/// the entry count (a 4-byte field at `count_at`, when the table has one) advanced, checksum recomputed. Lets an element
+/// that is serialisable on its own be judged by the table's walker without going through the table's `add_*` (and its guards).
+fn framed(prefix: Vec<u8>, element: Vec<u8>, count_at: Option<usize>) -> Vec<u8> {
+    let mut img = prefix;
+    img.extend_from_slice(&element);
+    let l = img.len() as u32;
+    img[4..8].copy_from_slice(&l.to_le_bytes());
+    if let Some(o) = count_at {
+        let n = rd32(&img, o) + 1;
+        img[o..o + 4].copy_from_slice(&n.to_le_bytes());
+    }
+    img[9] = 0;
+    img[9] = 0u8.wrapping_sub(sum8(&img));
+    img
+}
 fn parse_one(b: &[u8]) -> Result<N, String> {
     let v = parse_all(b, &[])?;
     if v.len() != 1 {
@@ -308,6 +324,110 @@ pub fn sites(thorough: bool) -> Vec<Site> {
             ser(&t)
         }),
         Box::new(|b, _| walk_ok(&tables::numa::Hmat, b)),
+    );
+    // ---- the same limits for elements serialised ON THEIR OWN (every element type is `Aml` and public): the count field
+    // lives in the element, so the element refuses or encodes faithfully whether or not a table's add_* ever sees it. The
+    // element's bytes are framed into the table image the corresponding add_* would produce and judged by the same walker.
+    add(
+        "HMAT side-cache SMBIOS handles, structure serialised on its own (2-byte count)",
+        65_535,
+        &[65_536, 65_537, 131_072],
+        false,
+        Box::new(|n| {
+            let t = hmat::HMAT::new(c().oem_id(), c().oem_table_id(), c().oem_rev());
+            let mut m = hmat::MemorySideCache::new(1, 2, hmat::CacheLevel::One, hmat::CacheLevel::One, hmat::Associativity::None, hmat::WritePolicy::None, 64);
+            for i in 0..n {
+                m.add_smbios_handle((i % 48) as u16 + 7);
+            }
+            let e = ser(&m);
+            framed(ser(&t), e, None)
+        }),
+        Box::new(|b, _| walk_ok(&tables::numa::Hmat, b)),
+    );
+    add(
+        "CEDT CXIMS xormaps, structure serialised on its own (1-byte count)",
+        255,
+        &[256, 257, 8191, 8192, 70_000],
+        false,
+        Box::new(|n| {
+            let t = cedt::CEDT::new(c().oem_id(), c().oem_table_id(), c().oem_rev());
+            let mut x = cedt::XorInterleaveMath::new(cedt::InterleaveGranularity::Granularity256b);
+            for i in 0..n {
+                x.add_xormap(i);
+            }
+            let e = ser(&x);
+            framed(ser(&t), e, None)
+        }),
+        Box::new(|b, _| walk_ok(&tables::cedt_hest::Cedt, b)),
+    );
+    add(
+        "PPTT processor private resources, node serialised on its own (1-byte node length)",
+        58,
+        &[59, 60, 122, 1000],
+        false,
+        Box::new(|n| {
+            let mut t = pptt::PPTT::new(c().oem_id(), c().oem_table_id(), c().oem_rev());
+            let h = t.add_cache(pptt::CacheNodeBuilder::default().to_node());
+            let mut p = pptt::ProcessorNode::new(None, 1);
+            for _ in 0..n {
+                p = p.add_cache(&h);
+            }
+            let e = ser(&p);
+            framed(ser(&t), e, None)
+        }),
+        Box::new(|b, _| walk_ok(&tables::topo::Pptt, b)),
+    );
+    add(
+        "RIMT IOMMU interrupt wires, node serialised on its own (2-byte node length: 32 + 8n)",
+        8187,
+        &[8188, 8189, 8192, 65_536],
+        false,
+        Box::new(|n| {
+            let t = rimt::RIMT::new(c().oem_id(), c().oem_table_id(), c().oem_rev());
+            let w = (0..n).map(|i| rimt::InterruptWire::new(i as u32, true, false, 1)).collect();
+            let e = ser(&rimt::Iommu::new(1, None, None, None, Some(w)));
+            framed(ser(&t), e, Some(36))
+        }),
+        Box::new(|b, _| walk_ok(&tables::topo::Rimt, b)),
+    );
+    add(
+        "RIMT root complex id mappings, node serialised on its own (2-byte node length: 16 + 20n)",
+        3275,
+        &[3276, 3277, 3300, 65_536],
+        false,
+        Box::new(|n| {
+            let mut t = rimt::RIMT::new(c().oem_id(), c().oem_table_id(), c().oem_rev());
+            let h = t.add_iommu(rimt::Iommu::new(1, None, None, None, None));
+            let m = (0..n).map(|i| rimt::IdMapping::new(i as u32, 0, 1, h, false, false, false)).collect();
+            let e = ser(&rimt::PcieRootComplex::new(2, 0, false, false, Some(m)));
+            framed(ser(&t), e, Some(36))
+        }),
+        Box::new(|b, _| walk_ok(&tables::topo::Rimt, b)),
+    );
+    add(
+        "RIMT platform device name, node serialised on its own (2-byte node length / mapping offset: 13 + len)",
+        65_522,
+        &[65_523, 65_524, 65_536, 70_000],
+        false,
+        Box::new(|n| {
+            let t = rimt::RIMT::new(c().oem_id(), c().oem_table_id(), c().oem_rev());
+            let e = ser(&rimt::Platform::new(3, "N".repeat(n as usize), None));
+            framed(ser(&t), e, Some(36))
+        }),
+        Box::new(|b, _| walk_ok(&tables::topo::Rimt, b)),
+    );
+    add(
+        "RHCT ISA string length, node serialised on its own (2-byte node length)",
+        65_525,
+        &[65_526, 65_528, 65_535, 65_536, 70_000],
+        false,
+        Box::new(|n| {
+            let s: &'static str = Box::leak("r".repeat(n as usize).into_boxed_str());
+            let t = rhct::RHCT::new(c().oem_id(), c().oem_table_id(), c().oem_rev(), 1);
+            let e = ser(&rhct::IsaStringNode::new(s));
+            framed(ser(&t), e, Some(48))
+        }),
+        Box::new(|b, _| walk_ok(&tables::topo::Rhct, b)),
     );
     // the same count limits with REPEATED element values (a guard must count elements, not distinct elements)
     for period in [1u64, 48] {
